@@ -1,4 +1,5 @@
 (* Extraction of the C19 model: ExtrOcamlBasic + ExtrOcamlString only; nat stays inductive. *)
 From Coq Require Import Extraction ExtrOcamlBasic ExtrOcamlString.
-From LC Require Import IfaceDefs.
-Extraction "iface_model.ml" fix_model validate_connections link_model has_unlinked clean_model model_hidden_bad.
+From LC Require Import IfaceDefs IfaceOwnDefs.
+Extraction "iface_model.ml" fix_model validate_connections link_model has_unlinked clean_model model_hidden_bad
+  step readds visible_heap lists_get.
